@@ -222,6 +222,28 @@ fn main() {
 			};
 			h.go(&sys, &Limits::closure().states(30_000_000).wall_secs(600), false);
 		}
+		// neighbouring floats are different values (no tolerance in a selection): depth-bounded over
+		// {x, next(x), prev(x), x/2, 2x} at a power of two and at 150
+		for (tag, x) in [("1.0", 1.0 as ValueType), ("150.0", 150.0 as ValueType)] {
+			let up = ValueType::from_bits(x.to_bits() + 1);
+			let dn = ValueType::from_bits(x.to_bits() - 1);
+			let al = vec![x, up, dn, x / 2.0, x * 2.0];
+			let sys = MSys {
+				name: format!("{name}/depth/ulp-neighbours-of-{tag}"),
+				spec: spec(name),
+				params: [2usize, 3, 4].iter().map(|n| Params::N(*n as PeriodType)).collect(),
+				v0s: vals(&al[..3]),
+				alphabet: vals(&al),
+				mk_ref: mk_ref(name),
+				shape: Shape::Free,
+				span: n_of,
+				keyed: false,
+				positions: None,
+				check_peek: true,
+				extra: if name == "SMM" { Some(smm_window) } else { None },
+			};
+			h.go(&sys, &Limits::depth(if thorough { 8 } else { 6 }).wall_secs(300), true);
+		}
 		// every length: <= 2 (3) segments of constant / ramp up / ramp down
 		let mut ns: Vec<usize> = (1..=maxn).collect();
 		if !thorough {
